@@ -176,6 +176,8 @@ def packMapLoop : List Int → List Item → W → Option (List Item × W)
   | d :: ds, ents, w =>
     match w.st with
     | key :: val :: r =>
+      -- Map.Add → IsValidMapKey (stackitem/item.go:875,913): a compound key is a panic (FAULT)
+      if key.cid.isSome then none else
       let w := { w with st := r }
       if d < 0 then packMapLoop ds (ents ++ [key, val]) w
       else
@@ -192,7 +194,10 @@ the old child is discounted, the item stored (vm.go:1453-1511) -/
 def setitemTail (i : Int) (cloned : Item) (w : W) : Option Outcome :=
   match w.pop with
   | none => none
-  | some (key, w) => match w.pop with
+  | some (key, w) =>
+    -- validateMapKey(key) (vm.go:1454, for every container type): a compound key is a panic (FAULT)
+    if key.cid.isSome then none else
+    match w.pop with
     | none => none
     | some (obj, w) =>
       match obj with
@@ -281,11 +286,13 @@ def execS (op : SOp) (w : W) : Option Outcome :=
   | .newSized k n => match w.pop with                         -- vm.go:1273-1293
     | none => none
     | some (_, w) =>
+      if k = .map then none else                              -- only NEWARRAY, NEWARRAY_T, NEWSTRUCT exist
       let (id, w) := w.alloc { rc := 1, ch := List.replicate n .prim }
       okW ((w.pushNoRef (k.mk id)).addRefs (n + 1))           -- pushItemCounted(res, n+1)
   | .pack k n => match w.pop with                             -- vm.go:1338-1359
     | none => none
     | some (_, w) =>
+      if k = .map then none else                              -- only PACK, PACKSTRUCT (a Map: PACKMAP)
       if n ≤ w.st.length then
         let items := w.st.take n
         let (id, w) := ({ w with st := w.st.drop n } : W).alloc { rc := 1, ch := items }
@@ -632,6 +639,19 @@ def step (s : St) (op : Op) (unw : Option (Nat × Bool)) (extFault : Bool) : Opt
     match s'? with
     | none => none
     | some s' => if s'.c.refs > maxStackSize then none else some s'   -- vm.go:734
+
+/-! ### the ghost list of exception unwinding -/
+
+/-- what the evaluation stacks owned by the first `k` frames hold: the items that `handleException`
+(vm.go:1985-1990) drops WITHOUT discounting when it unloads those `k` contexts -/
+def droppedOf (k : Nat) (fs : List Frame) : List Item := (fs.take k).flatMap (fun f => slotItems f.own)
+
+/-- the items of the evaluation stacks that this step's exception unwinding drops (none if the
+instruction does not raise or no handler is found) -/
+def droppedBy (s : St) (op : Op) (unw : Option (Nat × Bool)) : List Item :=
+  match exec op s, unw with
+  | some r, some (k, _) => if r.raised.isSome then droppedOf k r.s.frames else []
+  | _, _ => []
 
 /-! ### observations -/
 
